@@ -109,6 +109,9 @@ func (c *RefreshTokenGrantHandler) HandleTokenEndpointRequest(ctx context.Contex
 	rtLifespan := fosite.GetEffectiveLifespan(request.GetClient(), fosite.GrantTypeRefreshToken, fosite.RefreshToken, c.Config.GetRefreshTokenLifespan(ctx))
 	if rtLifespan > -1 {
 		request.GetSession().SetExpiresAt(fosite.RefreshToken, time.Now().UTC().Add(rtLifespan).Round(time.Second))
+	} else {
+		// unlimited: the session was cloned from the original request, do not inherit the old token's expiry
+		request.GetSession().SetExpiresAt(fosite.RefreshToken, time.Time{})
 	}
 
 	return nil
